@@ -1,14 +1,19 @@
 -- expect: false	true	true
--- expect: -1	1	0.5	-0.25
+-- expect[jit]: -1	1	0.5	-0.25
+-- expect[5.3]: -1.0	1.0	0.5	-0.25
 -- expect: xyz	true	a3
--- expect: true	7	9	-4	1
+-- expect[jit]: true	7	9	-4	1
+-- expect[5.3]: true	7	9	-4	1.0
 -- expect: false	false	false	1
--- expect: 4	-3	6	2c	8
+-- expect[jit]: 4	-3	6	2c	8
+-- expect[5.3]: 4	-3	6	2c	8.0
 -- expect: true	true	true
 -- expect: true	false
--- expect: 2	5	2	64	256
+-- expect[jit]: 2	5	2	64	256
+-- expect[5.3]: 2	5	2	64.0	256.0
 -- expect: 1	true	true
--- expect: 1	8	2	1
+-- expect[jit]: 1	8	2	1
+-- expect[5.3]: 1	8.0	2.0	1
 -- expect: 123	123	true
 local a, b, c = 1, 2, 3
 print(not a == b, not (a == b), not not a)
